@@ -1,4 +1,4 @@
-import DoraModel.A64.Lemmas
+import DoraModel.A64.LogImm.Base
 /-! kernel-evaluated round trip `decode → encode_logical_imm → decode` over a slice of the 13-bit encodings
 (part 1 of 8; split so that the parts build in parallel; each `decide +kernel` evaluates the regenerated
 `encode_logical_imm` on 128 encodings) -/
